@@ -134,40 +134,64 @@ def r1_r2_r4(repo, rep):
         p = gctx.g.iteration_skipping(h, ys)
         rep.check(p is None, 'R1/full-iteration', '%s yields a group for every combination' % gname, gf.qualname, 'loop over %s' % norm(h.ast.iter)[:40],
                   '%s drops some combinations (an iteration can finish without yielding)' % gname, gf.loc(h.ast))
-  # skip edges: continue statements in the nest
-  conts = [n for n in body if n.kind == 'continue']
+  # skip edges: every way an iteration of one of the three loops ends without the push having been executed and without the
+  # next inner loop having run — `continue` statements and paths that simply fall off the end of the body alike
   tests = {n: (iv, q) for (n, iv, others, q) in c02.tests_of(repo, f)}
+  doms = view.doms
   n_skips = 0
-  writer_conditions = []
-  for cn in conts:
+  ends = []
+  for h, inner_h in ((hC, None), (hT, hC), (hS, hT)):
+    hb = set(g.loop_body_nodes(h))
+    for e in hb:
+      if e is P_.node or e.kind in ('for', 'while'):
+        continue
+      if not any(m is h and lab != 'exc' for m, lab in g.succ[e]):
+        continue
+      if P_.node in doms.get(e, ()) or (inner_h is not None and inner_h in doms.get(e, ())):
+        continue        # the design was pushed / the inner loop was run: not a skip
+      ends.append((h, hb, e))
+  for h, hb, e in sorted(ends, key=lambda x: x[2].id):
     n_skips += 1
-    loop_stmt = [h for h in (hC, hT, hS) if _inside(cn, h.ast)][0].ast
-    conds = enclosing_conditions(cn.ast, loop_stmt)
-    reason = classify_skip(repo, rep, view, cn, conds, T, C, tests)
-    rep.check(reason is not None, 'R2/skip-audit', 'skip at line %d is for an allowed reason (%s)' % (cn.lineno, reason), f.qualname,
-              'continue under ' + ' and '.join(('' if t else 'not ') + norm(e)[:60] for e, t, _ in conds),
+    conds = [(ex, tk, tn) for ex, tk, tn in cfgmod.dominating_conditions(g, e, doms) if tn in hb]
+    if e.kind == 'test':
+      # the iteration ends on an outcome of this test itself (the push is in the other branch)
+      for m, lab in g.succ[e]:
+        if m is h and lab in ('true', 'false'):
+          conds.append((e.expr, lab == 'true', e))
+    reason = classify_skip(repo, rep, view, e, conds, T, C, tests)
+    shown = ' and '.join(('' if t else 'not ') + norm(rd.expand(i, ex)[0])[:80] for ex, t, i in conds)
+    rep.check(reason is not None, 'R2/skip-audit', 'iteration end at line %d is for an allowed reason (%s)' % (e.lineno, reason), f.qualname,
+              'skip under ' + ' and '.join(('' if t else 'not ') + norm(ex)[:60] for ex, t, _ in conds),
               'a design (or a whole treatment group) is skipped under the condition `%s`, which is none of the reasons the statement allows (share, volume ratio, budget, over-max superset): feasible high-scoring designs can be omitted'
-              % ' and '.join(('' if t else 'not ') + norm(rd.expand(g.node_of(i), e)[0])[:80] for e, t, i in conds), f.loc(cn.ast))
+              % shown, f.loc(e.ast) if e.ast is not None else f.loc())
   rep.floor('skip edges audited', n_skips, 6)
-  # R4: push is reached by every non-skipped iteration of the control loop
-  conts_c = [n for n in g.nodes if n.kind == 'continue']
-  p = g.iteration_skipping(hC, [P_.node] + conts_c)
-  rep.check(p is None, 'R4/push', 'every control group that is not skipped for an audited reason is pushed', f.qualname,
-            'path to next iteration without push: ' + (' -> '.join(n.text()[:25] for n, _ in (p or [])[1:-1])),
-            'an iteration of the control loop can end without results.push and without an audited skip (the push is guarded by `%s`): feasible designs are silently dropped'
-            % (' / '.join(n.text()[:40] for n, _ in (p or []) if n.kind == 'test')), f.loc(P_.push_call))
   return view, (hS, hT, hC), T, C
+
+
+def optimistic_budget(view, node, v, T):
+  """v is `D.estimate_required_impact(rho_max) / iroas` with D the diagnostics of the treatment series of T alone
+  (named, or written out as the constructor call)."""
+  ctor = r'(?:\w+\.)?TBRMMDiagnostics\(self\.data\.aggregate_time_series\(%s\), self\.parameters\)' % re.escape(T)
+  m = re.fullmatch(r'(\w+|%s)\.estimate_required_impact\(%srho_max\) / %siroas' % (ctor, re.escape(P), re.escape(P)), v)
+  if not m:
+    return False
+  D = m.group(1)
+  if re.fullmatch(ctor, D):
+    return True
+  d = view.rd.single_def(node, D)
+  return d is not None and d.how == 'assign' and re.fullmatch(ctor, norm(view.expand(d.node, d.value))) is not None
 
 
 def classify_skip(repo, rep, view, cn, conds, T, C, tests):
   """Name of the allowed reason, or None."""
   g, rd, f = view.g, view.rd, view.f
+  _sites = pruning_sites(repo, view)
   seen_ = set()
   for e, taken, ifst in list(conds) + split_literals(conds):
     if (id(e), taken) in seen_:
       continue
     seen_.add((id(e), taken))
-    node = g.node_of(ifst)
+    node = ifst if hasattr(ifst, 'kind') else g.node_of(ifst)
     ex = rd.expand(node, e)[0]
     txt = norm(ex)
     # range tests (share, volume, actual budget)
@@ -180,51 +204,96 @@ def classify_skip(repo, rep, view, cn, conds, T, C, tests):
           ok, why = c02.budget_provenance(view, node, norm(iv.v), T, C)
         if ok:
           return {'treatment_share_range': 'share out of range', 'volume_ratio_tolerance': 'volume ratio out of range', 'budget_range': 'actual budget out of range'}[q]
-    # superset pruning
-    if taken and isinstance(e, ast.Call) and isinstance(e.func, ast.Name) and e.func.id in view.orig.nested and len(e.args) == 1 and norm(e.args[0]) == T:
-      return 'superset of a stored over-max pattern'
+    # superset pruning: the test scans the stored over-max patterns for a subset of the candidate treatment group
+    if taken:
+      for site in _sites:
+        if site['node'] is node and site['arg'] == T and any(x is e or norm(x) == norm(e) for x in [node.expr] + list(ast.walk(node.expr))):
+          return 'superset of a stored over-max pattern'
     # optimistic budget screens
     m = None
     for form in sorted(pathcond.rel_forms(ex, taken)):
       m = m or re.fullmatch(r'(.+) (>|<) %sbudget_range\[(0|1)\]' % re.escape(P), form)
     if m:
       v, op, idx = m.group(1), m.group(2), m.group(3)
-      mm_ = re.fullmatch(r'(\w+)\.estimate_required_impact\(%srho_max\) / %siroas' % (re.escape(P), re.escape(P)), v)
-      if mm_ and ((op == '>' and idx == '1') or (op == '<' and idx == '0')):
-        D = mm_.group(1)
-        d = rd.single_def(node, D)
-        if d is not None and d.how == 'assign' and re.fullmatch(
-            r'(\w+\.)?TBRMMDiagnostics\(self\.data\.aggregate_time_series\(%s\), self\.parameters\)' % re.escape(T), norm(view.expand(d.node, d.value))):
+      if optimistic_budget(view, node, v, T) and ((op == '>' and idx == '1') or (op == '<' and idx == '0')):
           return 'optimistic budget %s' % ('> max' if op == '>' else '< min')
   return None
 
 
+def _subset_forms(pv, geos):
+  return ('set(%s).issubset(%s)' % (pv, geos), '%s.issubset(%s)' % (pv, geos), 'set(%s) <= %s' % (pv, geos), '%s <= %s' % (pv, geos),
+          '%s.issuperset(%s)' % (geos, pv), '%s >= set(%s)' % (geos, pv), 'set(%s) <= set(%s)' % (pv, geos), '%s.issuperset(set(%s))' % (geos, pv))
+
+
+def _pattern_scan(node_or_expr):
+  """(pattern variable, list expression, test text) of a scan over stored patterns written as a loop with
+  `if <test>: return True` or as any(<test> for p in LIST); None otherwise."""
+  for sub in ast.walk(node_or_expr):
+    if isinstance(sub, ast.Call) and isinstance(sub.func, ast.Name) and sub.func.id == 'any' and len(sub.args) == 1 \
+        and isinstance(sub.args[0], (ast.GeneratorExp, ast.ListComp)) and len(sub.args[0].generators) == 1:
+      gen = sub.args[0].generators[0]
+      return norm(gen.target), gen.iter, norm(sub.args[0].elt), 'any'
+    if isinstance(sub, ast.For):
+      for t in [x for x in ast.walk(sub) if isinstance(x, ast.If)]:
+        rets = [r for r in ast.walk(t) if isinstance(r, ast.Return)]
+        if any(au.is_const(r.value, True) for r in rets):
+          return norm(sub.target), sub.iter, norm(t.test), 'loop'
+  return None
+
+
+def pruning_sites(repo, view):
+  """Tests of the search that scan a list of stored groups for a subset relation with a candidate:
+  [{node, list (name in the search), arg (candidate text), ok (orientation), seen, where}]."""
+  f, g, rd = view.f, view.g, view.rd
+  from mmsa import inline
+  out = []
+  for n in g.nodes:
+    if n.kind != 'test':
+      continue
+    for sub in ast.walk(n.expr):
+      site = None
+      if isinstance(sub, ast.Call) and isinstance(sub.func, ast.Name) and sub.func.id == 'any':
+        sc = _pattern_scan(sub)
+        if sc and ('issubset' in sc[2] or 'issuperset' in sc[2] or '<=' in sc[2] or '>=' in sc[2]):
+          pv, lst, seen, _ = sc
+          m = re.fullmatch(r'(?:set\()?%s\)?\.issubset\((.+)\)|(?:set\()?%s\)? <= (.+)|(.+)\.issuperset\((?:set\()?%s\)?\)|(.+) >= (?:set\()?%s\)?' % ((re.escape(pv),) * 4), seen)
+          arg = next((x for x in (m.groups() if m else ()) if x), None)
+          site = {'list': norm(rd.expand(n, lst)[0]) if not isinstance(lst, ast.Name) else lst.id, 'arg': arg or '', 'seen': seen,
+                  'ok': arg is not None and seen in _subset_forms(pv, arg), 'where': f.loc(sub), 'func': f}
+      elif isinstance(sub, ast.Call):
+        h = inline._resolve_simple_callee(view.orig, sub)
+        if h is None and isinstance(sub.func, ast.Name):
+          q = '%s.%s' % (f.module.name, sub.func.id)
+          h = repo.functions.get(q)
+        if h is None:
+          continue
+        sc = _pattern_scan(h.node)
+        if not sc or not any(k in sc[2] for k in ('issubset', 'issuperset', '<=', '>=')):
+          continue
+        pv, lst, seen, _ = sc
+        params = h.params[1:] if h.kind == 'method' else h.params
+        bind = dict(zip(params, [norm(a) for a in sub.args]))
+        bind.update({k.arg: norm(k.value) for k in sub.keywords if k.arg})
+        geos_p = [p_ for p_ in params if re.search(r'\b%s\b' % re.escape(p_), seen)]
+        lname = norm(lst)
+        list_here = bind.get(lname, lname)           # a parameter of the helper, or a free variable of a closure
+        okp = len(geos_p) == 1 and seen in _subset_forms(pv, geos_p[0])
+        site = {'list': list_here, 'arg': bind.get(geos_p[0], '') if len(geos_p) == 1 else '', 'seen': seen, 'ok': okp, 'where': h.loc(), 'func': h}
+      if site is not None:
+        site['node'] = n
+        out.append(site)
+  return out
+
+
 def r3_pruning(repo, rep, view, T):
   f, g, rd = view.f, view.g, view.rd
-  helper = None
-  for name, h in view.orig.nested.items():
-    helper = h if 'issubset' in norm(h.node) or 'issuperset' in norm(h.node) or '<=' in norm(h.node) else helper
   lists = set()
-  if helper is not None:
-    rep.fn(helper)
-    # the free list variable iterated in the helper
-    for s in walk_no_nested(helper.node):
-      if isinstance(s, ast.For) and isinstance(s.iter, ast.Name):
-        lists.add(s.iter.id)
-        pv = norm(s.target)
-        geos = helper.params[0]
-        tests_ = [x for x in ast.walk(s) if isinstance(x, ast.If)]
-        ok = False
-        seen = ''
-        for t in tests_:
-          seen = norm(t.test)
-          if seen in ('set(%s).issubset(%s)' % (pv, geos), '%s.issubset(%s)' % (pv, geos), 'set(%s) <= %s' % (pv, geos), '%s <= %s' % (pv, geos),
-                      '%s.issuperset(%s)' % (geos, pv), '%s >= set(%s)' % (geos, pv), 'set(%s) <= set(%s)' % (pv, geos)):
-            rets = [r for r in ast.walk(t) if isinstance(r, ast.Return)]
-            ok = any(au.is_const(r.value, True) for r in rets)
-        rep.check(ok, 'R3/pruning', 'pruning helper tests stored pattern ⊆ candidate group', helper.qualname, seen[:100],
-                  'the pruning helper tests `%s`: it must skip a candidate only when a stored over-budget group is a subset of it (supersets of an over-budget group)' % seen[:80],
-                  helper.loc(s))
+  for site in pruning_sites(repo, view):
+    rep.fn(site['func'])
+    lists.add(site['list'])
+    rep.check(site['ok'], 'R3/pruning', 'pruning scan tests stored pattern ⊆ candidate group', site['func'].qualname, site['seen'][:100],
+              'the pruning scan tests `%s`: it must skip a candidate only when a stored over-budget group is a subset of it (supersets of an over-budget group)' % site['seen'][:80],
+              site['where'])
   if not lists:
     rep.ok('R3/pruning', 'no superset pruning present (prunes nothing)', loc=f.loc(), nontrivial=False)
     return
@@ -251,7 +320,10 @@ def r3_pruning(repo, rep, view, T):
       texts.append((norm(ex_), t, pathcond.rel_forms(ex_, t)))
     re_over = r'(\w+)\.estimate_required_impact\(%srho_max\) / %siroas > %sbudget_range\[1\]' % (re.escape(P), re.escape(P), re.escape(P))
     allowed = (r'%sbudget_range is not None' % re.escape(P), r'\w+ != .+')
-    over = [x for x, t, forms in texts if any(re.fullmatch(re_over, fm) for fm in forms)]
+    def is_over(fm, node_=n):
+      m_ = re.fullmatch(r'(.+) > %sbudget_range\[1\]' % re.escape(P), fm)
+      return bool(m_) and optimistic_budget(view, node_, m_.group(1), T)
+    over = [x for x, t, forms in texts if any(re.fullmatch(re_over, fm) or is_over(fm) for fm in forms)]
     other = [x for x, t, forms in texts if x not in over and not any(re.fullmatch(a_, fm) for a_ in allowed for fm in forms)]
     texts = [(x, t) for x, t, _ in texts]
     arg = norm(call.args[0]) if isinstance(call, ast.Call) and call.args else ''
